@@ -13,6 +13,8 @@ from simkit.world import World, capture
 
 from .common import HOST, PORT, det_bytes
 
+HOST2 = "10.0.0.77"
+
 CLIENT_ATTRS = ("power_state", "operational_mode", "target_temperature", "fan_speed", "swing_mode", "eco",
                 "turbo", "sleep", "fahrenheit", "freeze_protection", "follow_me", "purifier",
                 "target_humidity", "aux_mode", "display_on", "filter_alert", "indoor_temperature",
@@ -142,6 +144,26 @@ class Session:
         self.world.net.listen(HOST, PORT, self.dev)
         self.clients = []
         self.outcomes = []
+        # an unrelated second device with its own client object, polled and set by a background task while the
+        # plan's ops run: nothing that happens to one pair may show on the other
+        self.dev2 = None
+        self.by_task = None
+        self.by_bad = []
+        self.by_rounds = 0
+        self.by_stop = False
+        b = cfg.get("bystander")
+        if b:
+            if any(isinstance(o, dict) and o.get("op") == "jump" for o in plan.get("ops", [])):
+                # a wall-clock step of 12 h landing inside the one-second pause that follows a handshake trips an
+                # `assert` in LAN.send (observation in DESIGN 14.4; outside every property's quantifier): the
+                # background pair speaks V2 when the plan steps the clock
+                b = dict(b, version=2)
+            self.dev2 = RefDevice(version=b.get("version", 2), device_id=(self.device_id ^ 0x5A5A5A) or 7,
+                                  token=det_bytes(f"tok2{seed}", 64), key=det_bytes(f"key2{seed}", 32),
+                                  nonce_seed=f"nonce2{seed}".encode())
+            for k, v in b.get("state", {}).items():
+                self.dev2.state[k] = v
+            self.world.net.listen(HOST2, PORT, self.dev2)
 
     # --- client construction (inside the loop) ---------------------------------------------
     def make_clients(self):
@@ -149,7 +171,66 @@ class Session:
         n = self.cfg.get("clients", 1)
         for _ in range(n):
             self.clients.append(ns.AC(ip=HOST, port=PORT, device_id=self.device_id))
+        if self.dev2 is not None and self.by_task is None:
+            self.by_client = ns.AC(ip=HOST2, port=PORT, device_id=self.dev2.device_id)
+            self.by_task = self.world.loop.create_task(self._bystander())
+            self.world.fire("second_device_and_client_alive")
         return self.clients
+
+    async def _bystander(self):
+        ac, dev2, w = self.by_client, self.dev2, self.world
+        b = self.cfg["bystander"]
+        period = b.get("period", 0.7)
+        try:
+            if dev2.version == 3:
+                await ac.authenticate(dev2.token.hex(), dev2.key.hex())
+            i = 0
+            while i < b.get("max_rounds", 40) and not self.by_stop:
+                if i % 2:
+                    dev2.state["power"] = not dev2.state["power"]
+                    dev2.state["temp"] = 17.0 + (i * 3 % 26) / 2.0
+                    dev2.state["eco"] = (i % 4 == 1)
+                await ac.refresh()
+                bad = compare_view(ac, dev2.state, dev2.state_len)
+                if bad or not ac.online:
+                    self.by_bad.append(f"round {i}: refresh view differs in {bad[:2]!r} online={ac.online}")
+                    return
+                if i % 3 == 2:
+                    ac.target_temperature = 18.0 + (i % 20) / 2.0
+                    ac.turbo = (i % 2 == 0)
+                    await ac.apply()
+                    if dev2.state["temp"] != ac.target_temperature or dev2.state["turbo"] != (i % 2 == 0):
+                        self.by_bad.append(f"round {i}: apply did not reach the second device")
+                        return
+                self.by_rounds += 1
+                i += 1
+                await asyncio.sleep(period)
+        except asyncio.CancelledError:
+            raise
+        except Exception as e:      # noqa: BLE001 - anything escaping on the unaffected pair is the finding
+            self.by_bad.append(f"{type(e).__name__}: {e}")
+
+    def with_bystander(self, body, res):
+        """Wrap a check's main coroutine: afterwards the background pair is stopped and judged."""
+        async def main(w):
+            await body(w)
+            bad = await self.stop_bystander()
+            if bad and res.ok:
+                res.fail("an unrelated second device/client pair in the same process was affected", bad)
+        return main
+
+    async def stop_bystander(self):
+        """Stop the background pair; returns a description of what went wrong on it (or None)."""
+        if self.by_task is None:
+            return None
+        # let the current round finish (cancelling an exchange is a fault of its own, C08's subject)
+        self.by_stop = True
+        await self.by_task
+        if self.dev2.violations and not self.by_bad:
+            self.by_bad.append(f"second device rejected client traffic: {self.dev2.violations[0][:2]!r}")
+        if self.by_rounds:
+            self.world.probe("bystander_rounds", self.by_rounds)
+        return self.by_bad[0] if self.by_bad else None
 
     def creds(self, kind="good"):
         tok, key = self.token, self.key
@@ -215,16 +296,16 @@ class Session:
         elif kind == "dev_partial":
             # the device starts an unsolicited report and sends only its first k bytes for now
             for conn in w.net.conns:
-                if conn.open:
+                if conn.open and conn.server is self.dev:
                     self.dev.send_partial_unsolicited(conn, op.get("k", 10))
             await asyncio.sleep(0.01)
         elif kind == "dev_close":
             for conn in w.net.conns:
-                if conn.open:
+                if conn.open and conn.server is self.dev:
                     conn.close(rst=bool(op.get("rst")))
                     w.fire("fin_idle" if not op.get("rst") else "rst_idle")
             # TCP is FIFO: the close is delivered after everything already in flight; wait for it
-            last = max([c._last_sched for c in w.net.conns] + [w.loop.time()])
+            last = max([c._last_sched for c in w.net.conns if c.server is self.dev] + [w.loop.time()])
             await asyncio.sleep(max(0.0, last - w.loop.time()) + 0.01)
         else:
             raise ValueError(f"unknown op {kind}")
